@@ -560,6 +560,8 @@ impl CircuitBuilder {
     }
 
     pub fn build(mut self, output_gates: Vec<GateIndex>) -> Circuit {
+        #[cfg(feature = "verif_hooks")]
+        crate::verif_hooks::yield_point("circuit::build");
         self.gates.shrink_to_fit();
         let output_gates = self.remove_unused_gates(output_gates);
 
